@@ -6,6 +6,8 @@ scaling, Welch averaging, the diffuse-field expression assembled from the real u
 independent smoothing model, and analytic series for differentiation / instrument-response removal.
 """
 
+import copy
+
 import numpy as np
 from scipy.signal.windows import tukey
 
@@ -25,7 +27,7 @@ ASSUMPTIONS = [
     "the identity is summed over the bins strictly between 0 Hz and Nyquist, so the treatment of those two bins is not judged",
     "scipy tukey and numpy fft are trusted primitives; H(f) of a pole-zero response is evaluated by direct products (no scipy.signal.freqs)",
 ]
-NOT_REACHED = ["odd FFT lengths (fft_settings={'n': None} with odd windows crashes in np.zeros(n/2); outside the statement's quantifier)"]
+NOT_REACHED = ["odd FFT lengths in the PSD *processing* step (fft_settings={'n': None} with odd windows crashes in np.zeros(n/2); outside the statement's quantifier) - the preprocessing step is exercised with odd lengths"]
 BUDGET = {"quick": dict(cases=1200, seconds=60, shards=4),
           "thorough": dict(cases=100000, seconds=600, shards=16)}
 REQUIRED = ["mon:parseval", "mon:amplitude-squared-scaling", "mon:welch-average", "mon:diffuse-field-from-psds",
@@ -174,7 +176,7 @@ def fam_diffuse(ctx, rng):
 
 
 def gen_pre(rng):
-    L = int(rng.choice([200, 1000, 5000]))
+    L = int(rng.choice([200, 201, 1000, 1001, 4001, 5000]))
     dt = float(rng.choice([0.005, 0.01, 0.02]))
     sc = gen.scale(rng)
     arrs = [gen.signal(rng, L) * sc + sc * float(rng.uniform(-2, 2)) for _ in range(3)]
@@ -182,20 +184,27 @@ def gen_pre(rng):
     return L, dt, sc, arrs, alpha
 
 
-def pre_settings(alpha, itf=None, differentiate=False):
+def gen_pre_fft(rng):
+    """FFT settings of the preprocessing step: the default, an un-padded transform (odd or even with the window), and
+    explicit lengths above the default power of two - odd and even."""
+    return [None, None, {"n": None}, {"n": None}, {"n": 40001}, {"n": 40000}, {"n": 65536}][int(rng.integers(0, 7))]
+
+
+def pre_settings(alpha, itf=None, differentiate=False, fft=None):
     import hvsrpy
     return hvsrpy.PsdPreProcessingSettings(orient_to_degrees_from_north=None, filter_corner_frequencies_in_hz=[None, None],
                                            window_length_in_seconds=None, detrend="none",
-                                           window_type_and_width=("tukey", alpha), fft_settings=None,
+                                           window_type_and_width=("tukey", alpha), fft_settings=copy.deepcopy(fft),
                                            instrument_transfer_function=itf, differentiate=differentiate)
 
 
 def fam_differentiate(ctx, rng):
     import hvsrpy
     L, dt, sc, arrs, alpha = gen_pre(rng)
-    ctx.describe(L=L, dt=dt, alpha=alpha, scale=sc, kind="differentiate")
+    fft = gen_pre_fft(rng)
+    ctx.describe(L=L, dt=dt, alpha=alpha, scale=sc, kind="differentiate", fft_settings=fft)
     rec = gen.make_recording(*[a.copy() for a in arrs], dt)
-    st = pre_settings(alpha, differentiate=True)
+    st = pre_settings(alpha, differentiate=True, fft=fft)
     out = hvsrpy.preprocess([rec], st)
     ctx.count("preprocess_calls")
     n = st.fft_settings["n"]
@@ -215,7 +224,8 @@ def fam_differentiate(ctx, rng):
         ok = ok and e <= 1e-8
     ctx.check(ok and len(out) == 1, "differentiation-analytic", "differentiated series differs from the spectral derivative",
               worst_relative_error=worst, L=L, dt=dt, alpha=alpha, n=n)
-    ctx.nontrivial(["diff", L, dt, alpha])
+    ctx.nontrivial(["diff", L, dt, alpha, n])
+    ctx.state(["diff", "odd-fft-length" if n % 2 else "even-fft-length"])
 
 
 def H_direct(poles, zeros, f):
@@ -243,11 +253,13 @@ def fam_response(ctx, rng):
         h = float(rng.choice([0.5, 0.707, 0.3]))
         poles = [complex(-h * w0, w0 * np.sqrt(1 - h * h)), complex(-h * w0, -w0 * np.sqrt(1 - h * h))]
         zeros = [0j, 0j]
-    ctx.describe(L=L, dt=dt, alpha=alpha, flat=flat, sensitivity=S, normalization=A0, poles=[str(p) for p in poles], zeros=[str(z) for z in zeros])
+    fft = gen_pre_fft(rng)
+    ctx.describe(L=L, dt=dt, alpha=alpha, flat=flat, sensitivity=S, normalization=A0, poles=[str(p) for p in poles], zeros=[str(z) for z in zeros],
+                 fft_settings=fft)
     itf = InstrumentTransferFunction(poles, zeros, S, A0)
     rec = gen.make_recording(*[a.copy() for a in arrs], dt)
     both = bool(rng.random() < 0.4)       # response removal AND differentiation in one call (one detrend, one taper)
-    st = pre_settings(alpha, itf=itf, differentiate=both)
+    st = pre_settings(alpha, itf=itf, differentiate=both, fft=fft)
     out = hvsrpy.preprocess([rec], st)
     ctx.count("preprocess_calls")
     n = st.fft_settings["n"]
@@ -280,12 +292,14 @@ def fam_response(ctx, rng):
         ctx.check(ok, "response-then-differentiation-analytic", "series after response removal and differentiation differs from "
                   "the spectral derivative of the response-corrected, once-tapered series", worst_relative_error=worst, L=L, dt=dt,
                   alpha=alpha, n=n, flat=flat)
-        ctx.nontrivial(["resp+diff", flat, L, dt, alpha])
+        ctx.nontrivial(["resp+diff", flat, L, dt, alpha, n])
+        ctx.state(["resp+diff", "odd-fft-length" if n % 2 else "even-fft-length"])
         return
     ctx.check(ok, "flat-response-analytic" if flat else "pole-zero-response-analytic",
               "series after instrument-response removal differs from the analytic expectation",
               worst_relative_error=worst, L=L, dt=dt, alpha=alpha, n=n, sensitivity=S, normalization=A0)
-    ctx.nontrivial(["resp", flat, L, dt, alpha])
+    ctx.nontrivial(["resp", flat, L, dt, alpha, n])
+    ctx.state(["resp", "odd-fft-length" if n % 2 else "even-fft-length"])
 
 
 def fam_same_windows_reused(ctx, rng):
